@@ -64,7 +64,7 @@ PROPS["C12"] = dict(
     module="Cfdp.Props.C12",
     namespace="Cfdp.Path",
     theorems=["C12_contained", "C12_idem"],
-    engines=["path"],
+    engines=["path", "fs"],
     design="§6 C12",
     technique="Lean 4 proof over a component-level model of camino paths + exhaustive differential correspondence with get_native_path",
     level_text=("Kernel-checked theorem C12_contained: for every root string and every name string the path computed by "
@@ -373,4 +373,35 @@ PROPS["C10"] = dict(
     assumptions=["C10_no_partial second part: the handler configured for CheckLimitReached is not Ignore (with Ignore an incomplete unacknowledged transfer is stored on purpose, "
                  "with delivery code Incomplete - finding F31)"],
     unproved=["that both entities end with the cancel condition over a real two-party exchange (needs the composition of both models; daemon engine)"],
+)
+
+PROPS["C13"] = dict(
+    title="Filestore requests act as CFDP defines, once, in order, reported truthfully",
+    module="Cfdp.Props.C13",
+    namespace="Cfdp.Fs",
+    theorems=["C13_failed_changes_nothing", "C13_create_file", "C13_delete_file", "C13_append_file", "C13_replace_file",
+              "C13_preconditions", "C13_run_requests", "Cfdp.Recv.C13_recv_runs_requests",
+              "Cfdp.Recv.C13_finished_pdu_responses", "Cfdp.Send.C13_send_user_responses"],
+    engines=["fs", "recv", "send"],
+    design="§6 C13",
+    technique="Lean 4 proofs over the filestore model (finite map of root-relative paths) and the request loop of finalize_receive + differential correspondence on the real NativeFileStore",
+    level_text=("Kernel-checked over the filestore model: a request that reports any failure status leaves the filesystem exactly as it was (C13_failed_changes_nothing); "
+                "create file succeeds iff nothing exists under the name and its parent is a directory, delete / deny file iff the name is a file, append and replace iff both "
+                "names are files, rename iff the source is a file, nothing exists under the target, the target's parent is a directory and the target is not inside the source, "
+                "create directory iff nothing exists there and the parent is a directory, remove / deny directory iff the name is a directory - with the specific failure "
+                "status otherwise (file 1 / file 2 does not exist, new name already exists, ...) - and on success the named file has exactly the specified content (empty, "
+                "gone, old1 ++ old2, old2) while every other name is untouched (C13_create_file .. C13_preconditions). A request list is answered one for one in order, each "
+                "request runs on the filesystem its predecessors left, the first failure stops execution and the rest is answered Not performed (C13_run_requests); inside "
+                "finalize_receive the list of the Metadata PDU runs exactly so after the file copy, the responses are recorded and put in the user's Finished indication "
+                "(C13_recv_runs_requests), copied into the Finished PDU (C13_finished_pdu_responses) and handed unchanged to the sending user (C13_send_user_responses). "
+                "'Only after a successful delivery, once': C10_no_partial + C04_final. Tie to the code: fs engine (real process_request on a scratch directory)."),
+    level_note=("Trusted: Lean kernel; the filestore model (lean/Cfdp/Model/Fs.lean: the part of std::fs that NativeFileStore uses, as a finite map; no permissions, symlinks or I/O "
+                "errors other than missing parent / wrong node kind) is tied to cfdp-core/src/filestore.rs by the fs engine, which runs every request on the real filestore in a "
+                "scratch directory and compares status code and full directory listing (names, kinds, content digests) with the model after every request. " + RECV_SEND_NOTE),
+    rule=("fs engine: every single request (9 actions x 20 names x 20 names incl. '', '.', '..', names escaping the root, root-prefixed and absolute names) on the initial tree, "
+          "then 1500 (quick) / 20000 (thorough) random sequences of 2-8 requests over a 10-name namespace of files and directories; oracles failed_changes_nothing, "
+          "response_names, no_panic, and (C12) fs_contained: nothing next to the root changes. recv/send engines: transactions carrying 0-3 requests (append = non-idempotent) "
+          "under the fault placements of C04. Non-trivial = the request changed the listing or returned a non-zero status / a PDU was emitted."),
+    assumptions=["names are mapped to root-relative paths by get_native_path as characterised in C12"],
+    unproved=["rename and remove-directory: the full post-state (moved subtree / removed subtree) is only checked against the model by the fs engine, not stated as a theorem"],
 )
